@@ -8,10 +8,12 @@ NAME = 'SCOPE'
 SRC = '/repo/src/bloch/runtime/runtime_evaluator.cpp'
 NAMESPACE = 'bloch::runtime'
 FUNCS = []
-AST_FILTER = ['RuntimeEvaluator::lookup', 'RuntimeEvaluator::assign']
+AST_FILTER = ['RuntimeEvaluator::lookup', 'RuntimeEvaluator::assign', 'RuntimeEvaluator::call', 'RuntimeEvaluator::callMethod', 'RuntimeEvaluator::runConstructorChain', 'RuntimeEvaluator::beginScope']
+BIND = [('call', 'bind_params_call'), ('callMethod', 'bind_params_callMethod'), ('runConstructorChain', 'bind_params_ctor')]
 SHIM = 'scope.h'
 THROWING = set()
-DROPS = ['regions: the first statement (the for loop over m_env.rbegin()..rend()) of lookup and of assign; what follows (fields of `this`, statics, class names, creation in the top scope) is not lowered',
+DROPS = ['regions bind_params_*: the parameter-binding loop (the first for statement after the beginScope() call) of call, callMethod and runConstructorChain; the parameter list becomes an array of names, the declaration handle an opaque integer; the scope being filled is observed at one arbitrary name (ghost)',
+         'regions: the first statement (the for loop over m_env.rbegin()..rend()) of lookup and of assign; what follows (fields of `this`, statics, class names, creation in the top scope) is not lowered',
          'each scope map is an uninterpreted function (scope index, name) -> entry id; entries live in a ghost table; names are interned identities',
          'Value members other than type, className, objectValue']
 ASSUMPTIONS = ['g_fb (index of the first scope of the innermost active call) is a free ghost parameter <= m_env.size(): that call / callMethod / runConstructorChain push exactly one scope and nothing below it belongs to the callee is the DEFINITION of the frame base, not verified here']
@@ -34,6 +36,10 @@ class Profile(Lower):
         (r'^(std::)?(basic_string<char.*>|string)$', 'bl_cname'),
         (r'^(std::)?shared_ptr<(bloch::runtime::)?Object>$', 'bl_objid'),
         (r'^std::__shared_ptr<(bloch::runtime::)?Object, __gnu_cxx::_S_atomic>$', 'bl_objid'),
+        (r'^std::vector<std::unique_ptr<(bloch::compiler::)?Parameter(, std::default_delete<.*>)?>(, .*)?>$', 'bl_params'),
+        (r'^std::vector<(bloch::runtime::)?Value(, std::allocator<.*>)?>$', 'bl_args'),
+        (r'^(bloch::compiler::)?(FunctionDeclaration|ConstructorDeclaration|MethodDeclaration) \*$', 'bl_decl'),
+        (r'^(bloch::runtime::)?RuntimeMethod \*$', 'bl_decl'),
     ]
 
     def file_prelude(self):
@@ -69,6 +75,19 @@ class Profile(Lower):
             return '(%s = %s - 1)' % (self.expr(args[0]), self.expr(args[0]))
         if op == 'operator->' and t0 == 'bl_mit':
             return 'BL_ENTRY(%s, %s)' % (self.cur_scope(), self.expr(args[0]))
+        if op == 'operator[]' and t0 == 'bl_args':
+            return 'g_args[BL_IDX(%s, g_nargs)]' % self.expr(args[1])
+        if op == 'operator[]' and t0 == 'bl_params':
+            return 'BL_PARAM(%s)' % self.expr(args[1])
+        if op == 'operator->' and strip_parens(args[0]).get('kind') == 'CXXOperatorCallExpr' and self.ct(kids(strip_parens(args[0]))[1]) == 'bl_params':
+            return self.expr(args[0])
+        if op == 'operator=' and 'VarEntry' in norm_type(qt(args[0])):
+            lhs = strip_parens(args[0])
+            if lhs.get('kind') == 'CXXOperatorCallExpr' and callee_name(kids(lhs)[0]) == 'operator[]':
+                m, key = kids(lhs)[1], kids(lhs)[2]
+                if self.expr(m) == 'BL_TOP_SCOPE':
+                    return 'scope_put_top(%s, %s)' % (self.expr(key), self.expr(args[1]))
+            raise Unsupported('VarEntry assignment target')
         if op == 'operator=' and t0 in ('Value', 'bl_cname'):
             return '(%s = %s)' % (self.expr(args[0]), self.expr(args[1]))
         raise Unsupported('operator %s on %s' % (op, qt(args[0])))
@@ -76,6 +95,10 @@ class Profile(Lower):
     def member(self, n):
         base = kids(n)[0]
         sb = strip(base)
+        if n.get('name') == 'params' and self.ctype_safe(qt(n)) == 'bl_params':
+            return 'BL_PARAMS'        # fn->params / method->decl->params / ctor->params: the parameter list of the callee
+        if n.get('name') == 'name' and sb.get('kind') == 'CXXOperatorCallExpr' and callee_name(kids(sb)[0]) == 'operator->' and self.expr(sb).startswith('BL_PARAM('):
+            return 'g_param_names[BL_IDX(%s, g_nparams)]' % self.expr(sb)[len('BL_PARAM('):-1]
         if sb.get('kind') == 'CXXOperatorCallExpr' and callee_name(kids(sb)[0]) == 'operator->' and self.ct(kids(sb)[1]) == 'bl_mit':
             if n['name'] == 'second':
                 return self.expr(sb)
@@ -89,7 +112,15 @@ class Profile(Lower):
             return 'g_env_size' if name == 'rbegin' else '((bl_rit)0)'
         if name in ('find', 'end') and so.get('kind') == 'CXXOperatorCallExpr' and callee_name(kids(so)[0]) == 'operator->' and self.ct(kids(so)[1]) == 'bl_rit':
             return 'scope_stub_find(%s, %s)' % (self.cur_scope(), self.expr(args[0])) if name == 'find' else 'BL_MAP_END'
+        if so.get('kind') == 'CXXThisExpr' and name == 'assign':
+            return 'scope_assign(%s)' % ', '.join(self.expr(a) for a in args)      # contract-only (its scope walk is proved as assign_walk; the rest is assumed)
         t = self.ct(obj)
+        if t == 'bl_params' and name == 'size':
+            return 'g_nparams'
+        if t == 'bl_args' and name == 'size':
+            return 'g_nargs'
+        if name == 'back' and so.get('kind') == 'MemberExpr' and so.get('name') == 'm_env':
+            return 'BL_TOP_SCOPE'
         o = self.expr(obj)
         if t == 'bl_cname' and name == 'empty':
             return '(%s == 0)' % o
@@ -97,14 +128,30 @@ class Profile(Lower):
             return '(%s != 0)' % o
         raise Unsupported('member call %s on %s' % (name, qt(obj)))
 
+    def initlist(self, n):
+        if 'VarEntry' in norm_type(qt(n)) and len(kids(n)) == 3:
+            return '(VarEntry){ %s }' % ', '.join(self.expr(a) for a in kids(n))
+        return super().initlist(n)
+
+    def string_literal(self, n):
+        if n.get('value') == '"this"':
+            return 'BL_NAME_THIS'
+        raise Unsupported('string literal ' + n.get('value', ''))
+
     def construct(self, n):
-        ct = self.ctype(qt(n))
+        ct = self.ctype_safe(qt(n))
         args = [a for a in kids(n) if a.get('kind') != 'CXXDefaultArgExpr']
+        if ct == 'VarEntry' and len(args) == 1:
+            return self.expr(args[0])
+        if ct == 'bl_cname' and len(args) == 1 and strip_parens(args[0]).get('kind') in ('StringLiteral', 'ImplicitCastExpr'):
+            return self.expr(args[0])
         if ct in ('Value', 'bl_rit', 'bl_mit') and len(args) == 1:
             return self.expr(args[0])
         raise Unsupported('ctor %s/%d' % (ct, len(args)))
 
     def cast_other(self, n, ck, inner):
+        if ck == 'PointerToBoolean' and self.ct(inner) == 'bl_decl':
+            return '(%s != 0)' % self.expr(inner)
         if ck in ('UserDefinedConversion', 'PointerToBoolean'):
             return self.expr(inner)
         return super().cast_other(n, ck, inner)
@@ -127,6 +174,47 @@ def lower_regions(docs, prof):
         assert lines[-1].strip() == '}'
         lines = lines[:-1] + ['  GHOST(g_fell_through = 1;)'] + (['  return (Value){0};'] if rt == 'Value' else []) + ['}']
         out.append(('%s scope_%s(%s)' % (rt, cname, params), lines))
+    # beginScope must still be the one-liner the frame model assumes: m_env.push_back({})
+    bs = cxx2c.find_functions(docs, 'beginScope')
+    ok = False
+    if len(bs) == 1:
+        st = kids([k for k in kids(bs[0]) if k.get('kind') == 'CompoundStmt'][0])
+        if len(st) == 1:
+            calls = []
+            walk(st[0], lambda z: calls.append(z) if z.get('kind') == 'CXXMemberCallExpr' else None)
+            ok = len(calls) == 1 and strip(kids(calls[0])[0]).get('name') == 'push_back' and strip(kids(strip(kids(calls[0])[0]))[0]).get('name') == 'm_env'
+    if not ok:
+        raise Unsupported('beginScope is no longer `m_env.push_back({})`')
+    for fn, cname in BIND:
+        head = 'void scope_%s(bl_decl %s)' % (cname, {'call': 'fn', 'callMethod': 'method', 'runConstructorChain': 'ctor'}[fn])
+        try:
+            ds = cxx2c.find_functions(docs, fn)
+            if len(ds) != 1:
+                raise Unsupported('%s: %d definitions' % (fn, len(ds)))
+            body = [k for k in kids(ds[0]) if k.get('kind') == 'CompoundStmt'][0]
+            stmts = kids(body)
+            ib = None
+            for i, st in enumerate(stmts):
+                c = strip(st)
+                if c.get('kind') == 'CXXMemberCallExpr' and strip(kids(c)[0]).get('name') == 'beginScope':
+                    ib = i
+                    break
+            if ib is None:
+                raise Unsupported('%s: no beginScope() statement' % fn)
+            loops = [st for st in stmts[ib + 1:] if st.get('kind') == 'ForStmt']
+            if not loops:
+                raise Unsupported('%s: no binding loop after beginScope()' % fn)
+            body2 = dict(body)
+            body2['inner'] = [loops[0]]
+            d = dict(kind='FunctionDecl', name=cname, type=dict(qualType='void ()'), inner=[body2])
+            prof.locals_extra = {'fn', 'method', 'ctor', 'args'}
+            h2, lines = prof.func(d, cname=cname, is_method=False)
+            out.append((head, lines))
+        except Unsupported as e:
+            if not hasattr(prof, 'region_unlowered'):
+                prof.region_unlowered = {}
+            prof.region_unlowered[cname] = str(e)
+            out.append((head, None))
     return out
 
 
@@ -141,6 +229,22 @@ VarEntry g_entries[SCMAX][EMAX];
 int g_hit; size_t g_hit_scope; int g_fell_through;
 VarEntry g_old_entry;
 bl_mit g_find_gk;        /* ghost: FIND(gk, name), computed once (function calls are not allowed in loop invariants) */
+/* ---- frame set-up (regions bind_params_*): the callee's parameter list, the arguments, and the scope being filled observed at one arbitrary name */
+#ifndef PMAX
+#define PMAX 8
+#endif
+#define BL_NAME_THIS 1
+typedef int bl_decl; typedef int bl_params; typedef int bl_args;
+size_t g_nparams, g_nargs, gi; bl_cname g_param_names[PMAX]; Value g_args[PMAX];
+bl_cname g_n; _Bool g_top_has, g_top_has0, g_seen; VarEntry g_top_val;
+static inline void scope_put_top(bl_cname name, VarEntry e) { if (name == g_n) { g_top_has = 1; g_top_val = e; } }
+#ifndef NATIVE
+/* RuntimeEvaluator::assign as a callee: only its frame is assumed here (it may write any binding on the stack or create one in the top scope) */
+void scope_assign(bl_cname name, Value v)
+__CPROVER_assigns(__CPROVER_object_whole(g_entries), g_top_has, g_top_val)
+__CPROVER_ensures(1)
+;
+#endif
 #ifdef NATIVE
 bl_mit scope_stub_find(size_t s, bl_cname n) { abort(); }
 #else
@@ -208,10 +312,37 @@ CONTRACTS = {
         'loops': walk_loop('assign', ', __CPROVER_object_whole(g_entries)'),
     },
 }
+def bind_contract(fn, cond):
+    lab = 'frame_setup.' + fn
+    return {
+        'contract': [
+            R('g_env_size >= 1 && g_env_size <= SCMAX && g_fb == g_env_size - 1 && g_nparams <= PMAX && g_nargs <= PMAX && gi < PMAX && gk < g_fb && g_e >= 0 && g_e < EMAX && bl_exc == 0'),
+            R('(!g_top_has || g_n == BL_NAME_THIS) && !g_seen'),
+            A('g_top_has, g_top_has0, g_top_val, g_seen, g_old_entry, __CPROVER_object_whole(g_entries)'),
+            # the property (C09): the callee's parameters live in the callee's own new frame, and binding them touches nothing of the caller
+            E(lab + '.every_parameter_is_bound_in_the_new_frame', '(%sgi < g_nparams && gi < g_nargs && g_param_names[gi] == g_n) ==> (g_top_has && g_top_val.initialized)' % cond, ['C09']),
+            E(lab + '.binds_parameter_names_only', '(g_top_has != 0) == (__CPROVER_old(g_top_has) != 0 || g_seen != 0)', ['C09']),
+            E(lab + '.caller_scopes_untouched', '__CPROVER_equal(g_entries[gk][g_e], __CPROVER_old(g_entries[gk][g_e]))', ['C09']),
+        ],
+        'prologue': 'g_top_has0 = g_top_has; g_old_entry = g_entries[gk][g_e];',
+        'loops': {0: {'assigns': 'i, g_top_has, g_top_val, g_seen, __CPROVER_object_whole(g_entries)',
+                      'body_begin': 'if (g_param_names[i] == g_n) g_seen = 1;',
+                      'invariants': [(lab + '.loop.bounds', 'i <= g_nparams && i <= g_nargs'),
+                                     (lab + '.loop.bound_so_far', '(gi < i && g_param_names[gi] == g_n) ==> (g_top_has && g_top_val.initialized)'),
+                                     (lab + '.loop.only_parameter_names', '(g_top_has != 0) == (g_top_has0 != 0 || g_seen != 0)'),
+                                     (lab + '.loop.caller_untouched', '__CPROVER_equal(g_entries[gk][g_e], g_old_entry)')],
+                      'decreases': 'g_nparams - i'}},
+    }
+
+
+CONTRACTS['bind_params_call'] = bind_contract('call', '')
+CONTRACTS['bind_params_callMethod'] = bind_contract('callMethod', '')
+CONTRACTS['bind_params_ctor'] = bind_contract('runConstructorChain', 'ctor != 0 && ')
 HARNESSES = [
     dict(name='lookup_walk', fn='lookup_walk', replace=['scope_stub_find'], flags=[], props=['C09', 'C12'], timeout=120, bounded_replace=['scope_stub_find'], bounded_defs=['SCMAX=3'], unwind=5, canaries=[('1', 'return')]),
     dict(name='assign_walk', fn='assign_walk', replace=['scope_stub_find'], flags=[], props=['C09', 'C12'], timeout=600, bounded_replace=['scope_stub_find'], bounded_defs=['SCMAX=3'], unwind=5, canaries=[('1', 'return')]),
-]
+] + [dict(name=c, fn=c, replace=['scope_assign'], flags=[], props=['C09', 'C12'], timeout=300, bounded_replace=['scope_assign'], bounded_defs=['SCMAX=3', 'PMAX=3'], unwind=5, canaries=[('g_top_has', 'a parameter was bound')])
+     for c in ('bind_params_call', 'bind_params_callMethod', 'bind_params_ctor')]
 
 
 # =========================================================================== native side
